@@ -220,6 +220,11 @@ RANGE_CASES = [
     ('column-103-formula', 103, 1, {(103, 1): 'formula-empty', (50, 1): 'sym'}),
     ('block-102x2', 102, 2, {(102, 2): 'sym', (1, 1): 'empty-text'}),
     ('column-150-gap', 150, 1, {(1, 1): 'num', (149, 1): 'formula', (150, 1): 'sym'}),
+    # the last cell that holds something sits exactly in the 101st row / column (the first one past the part that is always read)
+    ('column-101', 101, 1, {(1, 1): 'num', (101, 1): 'sym'}),
+    ('column-250-last-101', 250, 1, {(101, 1): 'sym'}),
+    ('row-101', 1, 101, {(1, 101): 'sym'}),
+    ('column-250-last-102', 250, 1, {(102, 1): 'sym'}),
 ]
 for _lab, _r, _c, _stored in RANGE_CASES:
     def _unwrap(v):
@@ -238,7 +243,7 @@ for _lab, _r, _c, _stored in RANGE_CASES:
 # the same contract under the properties whose functions fold over the elements of a range: the elements they are handed are ALL the cells
 # that hold something - a FALSE, a 0 or a 0.0 far down a long range as much as any other value (C10: AND / OR; C14: the aggregates)
 for _prop in ('C10', 'C14'):
-    for _lab, _r, _c, _stored in RANGE_CASES[1:3]:
+    for _lab, _r, _c, _stored in RANGE_CASES[1:3] + RANGE_CASES[6:9]:
         UNITS.append(Unit(
             id=f'{_prop}/ast_nodes.RangeNode.eval/every_element_is_handed_over[{_lab}]', target='xlcalculator.ast_nodes:RangeNode.eval', prop=_prop,
             inputs=[('far', FAR)],
@@ -414,3 +419,70 @@ UNITS.append(Unit(
     cases=[Case('an operand whose text carries a mark of a reference - the "!" after a sheet name (whatever the sheet is called: a title may start with a '
                 'digit), a "$", the ":" of a range - leaves the scanner typed as a reference, never as a number or a logical value', lambda text: True, _typing_ens)],
     call=_typing_call, native_call=_typing_native))
+
+
+# ---- P2'': the key a range is REGISTERED under and the key it is LOOKED UP under are the same text ---------------------------------------------
+# Two functions must agree, neither is wrong alone: `XLFormula.__post_init__` names the ranges of a formula (these terms become the keys of
+# `Model.ranges` / the dependency list), `RangeNode.full_address` builds the key the evaluation looks up.  For every spelling of a reference -
+# single cells, rectangles, whole rows and whole columns, with `$` on either corner, qualified or not - and ANY sheet name, both are the
+# `$`-free address on the sheet the reference is written for.  (The scanner is a collaborator handing out the reference token: C02.)
+KEY_REFS = ['$A$1', 'A$1:$B2', '$A$1:B2', 'A1:$B$2', '$C:$C', 'C:$C', '$C:D', '$2:2', '2:$2', '$2:$3',
+            'Data!$C:$C', 'Data!$2:$3', 'Data!A$1:$B2', 'Data!C:$D']
+
+
+def keys_call(native, ref):
+    def call(it, fn, sheet):
+        from xlcalculator import xltypes, tokenizer, ast_nodes
+
+        class Tokens:
+            pass
+        res = Tokens()
+        res.items = [tokenizer.f_token('SUM', 'function', 'start'), _tok(ref), tokenizer.f_token('', 'function', 'stop')]
+        text = f'=SUM({ref})'
+        if native:
+            real = tokenizer.ExcelParser.getTokens
+            tokenizer.ExcelParser.getTokens = lambda self, formula: res
+            try:
+                f = xltypes.XLFormula(text, sheet)
+            finally:
+                tokenizer.ExcelParser.getTokens = real
+            ctx = type('Ctx', (), {})()
+            ctx.sheet = ctx.refsheet = sheet
+        else:
+            it.call_contracts[tokenizer.ExcelParser.getTokens] = ModelFn(lambda it_, self_, formula: res, 'ExcelParser.getTokens')
+            f = it.instantiate(xltypes.XLFormula, [text, sheet], {})
+            ctx = Stub('ctx', sheet=sheet, refsheet=sheet)
+        node = ast_nodes.RangeNode(_tok(ref))
+        looked = (it or _Native()).call(ast_nodes.RangeNode.full_address, [node, ctx], {})
+        return dict(registered=list(f.terms), looked=looked)
+    if native:
+        return lambda fn, sheet: call(None, fn, sheet)
+    return call
+
+
+def keys_ens(ref):
+    def ens(sheet, out):
+        if out.kind != 'ret' or len(out.value['registered']) != 1:
+            return False
+        bare = ref.replace('$', '')
+        exp = bare if '!' in bare else S.concat(sheet, '!', bare)
+        return And(spec.eq(out.value['registered'][0], exp), spec.eq(out.value['looked'], exp))
+    return ens
+
+
+def _plain_sheet(s):
+    t = lift(s).t
+    return Sym(z3.And(z3.Length(t) > 0, z3.Not(z3.Contains(t, z3.StringVal('!'))), z3.Not(z3.Contains(t, z3.StringVal('$')))), 'bool') if is_sym(s) \
+        else bool(s) and '!' not in s and '$' not in s
+
+
+for _ref in KEY_REFS:
+    UNITS.append(Unit(
+        id=f'C03/registered_key_is_looked_up_key[{_ref}]', target='xlcalculator.ast_nodes:RangeNode.full_address',
+        inputs=[('sheet', Prim('str', domain=['Sheet1', 'My Sheet', 'Data']))], requires=lambda sheet: _plain_sheet(sheet),
+        cases=[Case('the key a reference is registered under (the formula\'s term) and the key the evaluation looks up are both the $-free address on '
+                    'the sheet the reference is written for - whole rows and whole columns with $ markers included - for ANY sheet name',
+                    lambda s: True, keys_ens(_ref))],
+        canary=Case('canary', lambda s: True, (lambda r: lambda s, out: out.kind == 'ret' and spec.eq(out.value['looked'], r))(_ref)),
+        call=keys_call(False, _ref), native_call=keys_call(True, _ref),
+        cross_key=lambda r: (r['registered'], r['looked']) if isinstance(r, dict) else repr(r), timeout_ms=30000))
